@@ -16,7 +16,7 @@ ID = "C03"
 LEVEL = "exploration"
 RULE = (
     "Hypothesis draws runs over all families (incl. oscillating 'sines' and badly scaled) x boxes x starts x maxls biased to 1..4 x maxfun from 1 biased small x "
-    "ftol in {0,1e-12,1e-5} x {callable, None, 2-point, 3-point} x optional gradient scaler; no update function. The harness recomputes f at clip(x0), at every callback iterate and at result.x. "
+    "ftol in {0,1e-12,1e-5} x {callable, None, 2-point, 3-point} x optional gradient scaler; no update function; plus objectives with a restricted domain (quadratic + log barrier, NaN or +inf outside, start inside, box not necessarily protecting the domain). The harness recomputes f at clip(x0), at every callback iterate and at result.x. "
     "non-trivial = >=1 iteration and some line search of the run returned None, hit its evaluation cap, or used >=2 trials (so the accepted trial need not be the last); distinct = distinct run spec; a fifth of the problems are also translated far from the origin (x -> x+T, |T| = 1e2..1e6: bounds and iterates of large magnitude compared with the box)"
 )
 ASSUMPTIONS = ["the harness objective is a pure function, so recomputed values are the values the solver saw"]
@@ -47,8 +47,10 @@ def watch_linesearch(tr_holder):
 
 def check(rspec, stats=None):
     prob = build(rspec["problem"])
+    barrier = rspec["problem"]["obj"]["family"] == "barrier"
     with watch_linesearch(None) as lslog:
-        tr = execute(rspec, prob=prob, callback="passive")
+        # an objective with a restricted domain answers NaN / +inf outside it: the solver has to cope with such trial values
+        tr = execute(rspec, prob=prob, callback="passive", **({"check_finite": False} if barrier else {}))
     if tr.exc is not None:
         if stats is not None:
             stats.bump("exception:" + type(tr.exc).__name__)
@@ -60,6 +62,9 @@ def check(rspec, stats=None):
     vals = [float(f(p)) for _, p in pts]
     for k in range(1, len(pts)):
         if not np.all(np.isfinite([vals[k - 1], vals[k]])):
+            if barrier and np.isfinite(vals[0]):
+                raise Violation("objective-non-increasing",
+                                f"f({pts[k][0]})={vals[k]!r} after f({pts[k - 1][0]})={vals[k - 1]!r}: an accepted iterate lies outside the domain of the objective (start value {vals[0]!r}); message={tr.res['message']!r}")
             raise Discard("non-finite objective on the trajectory")
         if vals[k] > vals[k - 1]:
             raise Violation("objective-non-increasing",
@@ -87,6 +92,22 @@ def check(rspec, stats=None):
                     f"jac={rspec['jac']}", f"nit={'0' if nit == 0 else '1-5' if nit <= 5 else '6+'}"])
 
 
+@st.composite
+def barrier_strategy(draw):
+    """Objectives with a restricted domain (log barrier): NaN or +inf outside; the start is inside, the box may or may not
+    keep the iterates inside."""
+    from vf.specs import grid, loggrid, sgrid, vec
+
+    r = draw(run_spec(families=("boxqp",), n_max=6, jac_modes=("callable",), maxiter=(1, 40), maxfun=(1, 120), small_ls=True, ftols=(0.0, 1e-12, 1e-5), gtols=(1e-8, 1e-5),
+                      allow_degenerate=False))
+    p = r["problem"]
+    n = p["obj"]["n"]
+    x0 = [min(max(x, -1e300 if l is None else l), 1e300 if u is None else u) for x, l, u in zip(p["x0"], p["lb"], p["ub"])]
+    l = [x - draw(loggrid(-2.0, 0.5, 10)) for x in x0]
+    p["obj"] = {"family": "barrier", "n": n, "a": draw(vec(sgrid(4.0, 40), n)), "l": l, "mu": draw(loggrid(-3, 1, 16)), "outside": draw(st.sampled_from(["nan", "inf"]))}
+    return r
+
+
 def strategy():
     return run_spec(families=ALL_FAMILIES, n_max=10, jac_modes=("callable", "callable", "callable", None, "2-point", "3-point"),
                     maxiter=(1, 40), maxfun=(1, 120), small_ls=True, units=True, shift=True, extras=True, ftols=(0.0, 1e-12, 1e-5), gtols=(1e-8, 1e-6, 1e-5),
@@ -95,6 +116,7 @@ def strategy():
 
 def shard(ctx):
     ctx.hyp("runs", strategy(), check, ctx.pick(8000, 200000))
+    ctx.hyp("restricted-domain", barrier_strategy(), check, ctx.pick(2500, 40000))
 
 
 def replay(spec):
